@@ -1,3 +1,203 @@
+/-
+  Props/C12.lean — Lifecycle: well-formed event stream; stop always stops; close is terminal.
+  About Model/Client.lean (client/mod.rs `MqttClientImpl`: `handle_incoming_operation`,
+  `compute_optional_state_transition`, `transition_to_state`, `dispatch_packet_events`).
+  The network drivers' loops only request the transitions listed in `legal`.
+-/
 import GV.Model.Client
 namespace GV.Props.C12
+open GV
+
+instance : LawfulBEq CState where
+  eq_of_beq := by intro a b h; cases a <;> cases b <;> first | rfl | cases h
+  rfl := by intro a; cases a <;> rfl
+
+/-! ### the event grammar -/
+
+inductive Phase where
+  | idle | attempting | established | bad
+  deriving Repr, BEq, DecidableEq
+
+/-- the grammar's automaton: Attempt (Failure | Success Disconnection); Stopped only between attempts;
+    inbound publishes do not affect it -/
+def Phase.step : Phase → CEvent → Phase
+  | .idle, .attempt => .attempting
+  | .attempting, .failure _ => .idle
+  | .attempting, .success _ => .established
+  | .established, .disconnection _ => .idle
+  | .idle, .stopped => .idle
+  | p, .publish _ => p
+  | _, _ => .bad
+
+def phaseOf (evs : List CEvent) : Phase := evs.foldl Phase.step .idle
+
+theorem phaseOf_append (a : List CEvent) (ev : CEvent) : phaseOf (a ++ [ev]) = (phaseOf a).step ev := by
+  simp [phaseOf, List.foldl_append]
+
+/-- where the grammar must stand for a client in this state -/
+def expected (c : Client) : Phase :=
+  match c.current with
+  | .connecting => .attempting
+  | .connected => if c.lastConnack = some true then .established else .attempting
+  | _ => .idle
+
+/-- the invariant: the whole event history is a prefix of a well-formed stream, in step with the state -/
+def Inv (c : Client) : Prop :=
+  phaseOf c.events = expected c ∧ (c.current = .connecting → c.lastConnack = none)
+
+/-- the transitions the drivers' loops request -/
+def legal : CState → CState → Bool
+  | .stopped, .connecting | .stopped, .shutdown => true
+  | .connecting, .connected | .connecting, .pendingReconnect | .connecting, .stopped => true
+  | .connected, .pendingReconnect | .connected, .stopped => true
+  | .pendingReconnect, .connecting | .pendingReconnect, .stopped => true
+  | _, _ => false
+
+theorem engStep_fields (c : Client) (ev : Event) :
+    (c.engStep ev).1.current = c.current ∧ (c.engStep ev).1.desired = c.desired ∧ (c.engStep ev).1.events = c.events ∧
+    (c.engStep ev).1.lastConnack = c.lastConnack := by
+  simp [Client.engStep]
+
+/-- where `transition_to_state` can really end up from a state, given what the loops request -/
+def legal2 : CState → CState → Bool
+  | .stopped, .connecting | .stopped, .shutdown => true
+  | .connecting, .connected | .connecting, .pendingReconnect | .connecting, .stopped | .connecting, .shutdown => true
+  | .connected, .pendingReconnect | .connected, .stopped | .connected, .shutdown => true
+  | .pendingReconnect, .connecting | .pendingReconnect, .stopped | .pendingReconnect, .shutdown => true
+  | _, _ => false
+
+theorem finalTarget_legal (c : Client) (target : CState) (h : legal c.current target = true) :
+    legal2 c.current (c.finalTarget target) = true := by
+  have key : ∀ cur target desired, legal cur target = true → legal2 cur (finalTargetOf desired target) = true := by
+    intro cur target desired
+    cases cur <;> cases target <;> cases desired <;> decide
+  exact key _ _ _ h
+
+/-- the grammar position for a state/CONNACK pair -/
+def expectedAt (cur : CState) (lastConnack : Option Bool) : Phase :=
+  match cur with
+  | .connecting => .attempting
+  | .connected => if lastConnack = some true then .established else .attempting
+  | _ => .idle
+
+theorem expected_eq (c : Client) : expected c = expectedAt c.current c.lastConnack := rfl
+
+/-- the event/bookkeeping part of a transition keeps the stream well-formed -/
+theorem applyTransition_keeps_grammar (c1 : Client) (old t2 : CState) (lasted : Option Nat)
+    (hp : phaseOf c1.events = expectedAt old c1.lastConnack) (hc : old = .connecting → c1.lastConnack = none)
+    (hl : legal2 old t2 = true) :
+    phaseOf (c1.applyTransition old t2 lasted).events = expectedAt t2 (c1.applyTransition old t2 lasted).lastConnack ∧
+    ((c1.applyTransition old t2 lasted).current = t2) ∧
+    (t2 = .connecting → (c1.applyTransition old t2 lasted).lastConnack = none) := by
+  cases old <;> cases t2 <;> simp [legal2] at hl <;>
+    simp only [Client.applyTransition, Client.emit, Client.emitFailure, Client.emitDisconnection, beq_self_eq_true,
+      Bool.and_self, Bool.and_true, Bool.true_and, Bool.false_and, Bool.and_false, ↓reduceIte, bne_self_eq_false,
+      Bool.false_eq_true, reduceCtorEq, beq_iff_eq, bne_iff_ne, ne_eq, not_true_eq_false, not_false_eq_true, decide_true, decide_false,
+      expectedAt, phaseOf_append] at hp hc ⊢ <;>
+    (first
+      | (simp [hp, Phase.step]; done)
+      | (cases hlc : c1.lastConnack with
+         | none => simp_all [Phase.step, phaseOf_append]
+         | some b => cases b <;> simp_all [Phase.step, phaseOf_append]))
+
+/-- **Every transition keeps the event stream well-formed**: entering Connecting reports an attempt, leaving
+    Connecting without reaching Connected reports exactly one failure, leaving Connected reports exactly one
+    disconnection (after a success) or failure (without one), Stopped is reported only between attempts. -/
+theorem transition_keeps_grammar (c : Client) (target : CState) (lasted : Option Nat)
+    (h : Inv c) (hl : legal c.current target = true) : Inv (c.transitionTo target lasted).1 := by
+  obtain ⟨hp, hc⟩ := h
+  rw [expected_eq] at hp
+  unfold Client.transitionTo
+  by_cases hsame : (c.current == target) = true
+  · simp only [hsame, ↓reduceIte]; exact ⟨by rw [expected_eq]; exact hp, hc⟩
+  · simp only [hsame, Bool.false_eq_true, ↓reduceIte]
+    have hl2 := finalTarget_legal c target hl
+    -- the engine notification changes neither the state, the events nor the last CONNACK
+    have key : ∀ (c1 : Client) (r : Res), c1.events = c.events → c1.lastConnack = c.lastConnack → c1.current = c.current →
+        Inv (if (!r.isOk) = true then (c1, r) else (c1.applyTransition c.current (c.finalTarget target) lasted, Res.ok)).1 := by
+      intro c1 r he hk hcur
+      cases hr : r.isOk
+      · simp only [Bool.not_false, ↓reduceIte]
+        exact ⟨by rw [expected_eq, he, hk, hcur]; exact hp, by rw [hcur, hk]; exact hc⟩
+      · simp only [Bool.not_true, Bool.false_eq_true, ↓reduceIte]
+        have := applyTransition_keeps_grammar c1 c.current (c.finalTarget target) lasted (by rw [he, hk]; exact hp) (by rw [hk]; exact hc) hl2
+        exact ⟨by rw [expected_eq, this.2.1]; exact this.1, by rw [this.2.1]; exact this.2.2⟩
+    split
+    · have hf := engStep_fields c (.opened 0 30000)
+      exact key _ _ hf.2.2.1 hf.2.2.2 hf.1
+    · split
+      · have hf := engStep_fields c (.closed 0)
+        exact key _ _ hf.2.2.1 hf.2.2.2 hf.1
+      · exact key c .ok rfl rfl rfl
+
+/-- **CONNACK handling keeps the stream well-formed**: the first CONNACK of a connection reports a success
+    exactly when its reason code is success; inbound publishes do not disturb the grammar. -/
+theorem connack_keeps_grammar (c : Client) (k : Connack) (h : Inv c) (hcur : c.current = .connected) (hfirst : c.lastConnack = none) :
+    Inv (c.dispatchEvents [.connack k]) := by
+  obtain ⟨hp, _⟩ := h
+  simp only [expected, hcur, hfirst] at hp
+  simp only [Client.dispatchEvents, List.foldl]
+  by_cases hk : k.reasonCode = 0
+  · simp [hk, Inv, expected, Client.emit, hcur, phaseOf_append, hp, Phase.step]
+  · simp [hk, Inv, expected, hcur, hp]
+
+theorem publish_keeps_grammar (c : Client) (p : Publish) (h : Inv c) : Inv (c.dispatchEvents [.publish p]) := by
+  obtain ⟨hp, hc⟩ := h
+  simp only [Client.dispatchEvents, List.foldl, Client.emit]
+  refine ⟨?_, hc⟩
+  simp only [expected] at hp ⊢
+  rw [phaseOf_append, hp]
+  cases c.current <;> simp [Phase.step] <;> split <;> simp [Phase.step]
+
+/-- non-vacuity: a fresh client satisfies the invariant -/
+example (e : Engine) : Inv { eng := e } := by simp [Inv, expected, phaseOf]
+
+/-! ### stop always stops; close is terminal -/
+
+/-- Once the user no longer wants a connection, a client that is connecting or waiting to reconnect is moved
+    to Stopped at the loop's next look — whatever the transport is doing. -/
+theorem stop_leaves_connecting (c : Client) (hd : c.desired ≠ .connected)
+    (hcur : c.current = .connecting ∨ c.current = .pendingReconnect) :
+    c.computeTransition = some .stopped := by
+  rcases hcur with h | h <;> simp [Client.computeTransition, h, bne_iff_ne, hd]
+
+/-- A connected client stops at once unless a user-requested DISCONNECT is still to be written. -/
+theorem stop_leaves_connected (c : Client) (hd : c.desired ≠ .connected) (hcur : c.current = .connected)
+    (hs : c.stopOpts ≠ some true) : c.computeTransition = some .stopped := by
+  simp only [Client.computeTransition, hcur]
+  cases hso : c.stopOpts with
+  | none => simp [bne_iff_ne, hd]
+  | some b => cases b <;> simp_all [bne_iff_ne]
+
+/-- A stopped client whose user wants it stopped makes no attempt; it leaves Stopped only for a start or a close. -/
+theorem stopped_stays_stopped (c : Client) (hcur : c.current = .stopped) :
+    c.computeTransition = (match c.desired with | .connected => some .connecting | .shutdown => some .shutdown | _ => none) := by
+  simp only [Client.computeTransition, hcur]
+  cases c.desired <;> rfl
+
+/-- A stop with a DISCONNECT during the handshake (no established MQTT connection) does not wait for a
+    DISCONNECT that cannot be sent. -/
+theorem stop_with_disconnect_during_handshake (c : Client) (d : Disconnect) (h : (c.eng.state == .connected) = false) :
+    (c.handleOp (.stopWithDisconnect d)).stopOpts = some false ∧ (c.handleOp (.stopWithDisconnect d)).desired = .stopped := by
+  simp [Client.handleOp, h, Client.applyError]
+  split <;> simp
+
+/-- **Close is terminal**: after a close request nothing is left to wait for, so wherever the client is the
+    loop's next look moves it out, and that transition ends in Shutdown. -/
+theorem close_shuts_down (c : Client) (hcur : c.current ≠ .shutdown) :
+    let c' := c.handleOp .close
+    ∃ t, c'.computeTransition = some t ∧ c'.finalTarget t = .shutdown := by
+  have hf := engStep_fields c (.reset 0)
+  simp only [Client.handleOp]
+  cases hc : c.current with
+  | shutdown => exact absurd hc hcur
+  | stopped => exact ⟨.shutdown, by simp [Client.computeTransition, hf.1, hc], by simp [Client.finalTarget]; decide⟩
+  | connecting => exact ⟨.stopped, by simp [Client.computeTransition, hf.1, hc], by simp [Client.finalTarget]; decide⟩
+  | pendingReconnect => exact ⟨.stopped, by simp [Client.computeTransition, hf.1, hc], by simp [Client.finalTarget]; decide⟩
+  | connected => exact ⟨.stopped, by simp [Client.computeTransition, hf.1, hc], by simp [Client.finalTarget]; decide⟩
+
+/-- Shutdown is absorbing: the loop requests nothing further. -/
+theorem shutdown_is_final (c : Client) (hcur : c.current = .shutdown) : c.computeTransition = none := by
+  simp [Client.computeTransition, hcur]
+
 end GV.Props.C12
